@@ -11,8 +11,7 @@ from common import R, fl, relclose
 from common import all_pre_build as pre_build  # noqa: E402,F401  (regenerates Generated/*.lean — here Generated/Setup.lean — from the tested tree)
 
 LEAN_MODULES = ["PyomaVerif.Props.C14", "PyomaVerif.Mutants.C14", "PyomaVerif.Props.C03Split", "PyomaVerif.Props.C14Algs",
-                "PyomaVerif.Mutants.C14Algs", "PyomaVerif.Props.C14Own", "PyomaVerif.Mutants.C14Own"]
-                "PyomaVerif.Mutants.C14Algs", "PyomaVerif.Props.WiringSetup"]
+                "PyomaVerif.Mutants.C14Algs", "PyomaVerif.Props.C14Own", "PyomaVerif.Mutants.C14Own", "PyomaVerif.Props.WiringSetup"]
 THEOREMS = [
     # setup layer read off the source (translate_setup.py -> Generated/Setup.lean), regenerated on every run
     "PV.WiringSetup.C14_single_stores_from_source",
